@@ -269,18 +269,20 @@ Definition explain (s : state) (e : aevent) (os : list (N * obs)) : res :=
       if check_obs s2 os then Ok s2 else Fail 2)
   end).
 
-(* a whole history; on failure: 1000 * (number of events accepted so far) + reason *)
-Fixpoint run_from (k : nat) (s : state) (tr : list (aevent * list (N * obs))) : res :=
+(* a whole history; on failure: the number of events accepted so far and the reason *)
+Inductive rres := ROk (s : state) | RFail (k code : nat).
+
+Fixpoint run_from (k : nat) (s : state) (tr : list (aevent * list (N * obs))) : rres :=
   match tr with
-  | [] => Ok s
+  | [] => ROk s
   | (e, os) :: r =>
       match explain s e os with
       | Ok s' => run_from (S k) s' r
-      | Fail c => Fail (1000 * k + c)
+      | Fail c => RFail k c
       end
   end.
 
-Definition run (tr : list (aevent * list (N * obs))) : res := run_from 0 init tr.
+Definition run (tr : list (aevent * list (N * obs))) : rres := run_from 0 init tr.
 
 (* ================================================================ soundness *)
 
@@ -411,7 +413,7 @@ Qed.
 
 (* what acceptance of a history means: the last observation is the projection of a state
    reachable through the observed history *)
-Lemma run_from_sound tr : forall k s s', Reachable V s -> run_from k s tr = Ok s' ->
+Lemma run_from_sound tr : forall k s s', Reachable V s -> run_from k s tr = ROk s' ->
   Reachable V s' /\
   (forall e os, tr <> [] -> last tr (e, os) = (e, os) -> True) /\
   match tr with [] => True | _ => check_obs s' (snd (last tr (AOther 0, []))) = true end.
@@ -426,13 +428,13 @@ Proof.
     simpl in H. inversion H; subst. simpl. exact Hc.
 Qed.
 
-Theorem run_sound tr s : run tr = Ok s -> Reachable V s.
+Theorem run_sound tr s : run tr = ROk s -> Reachable V s.
 Proof. intro H. exact (proj1 (run_from_sound tr 0 init s (R_init V) H)). Qed.
 
 (* prefixes of accepted histories are accepted, so [run_sound] and
    [run_last_obs] speak about every instant of an accepted history *)
-Lemma run_from_app tr1 : forall tr2 k s s', run_from k s (tr1 ++ tr2) = Ok s' ->
-  exists s1, run_from k s tr1 = Ok s1.
+Lemma run_from_app tr1 : forall tr2 k s s', run_from k s (tr1 ++ tr2) = ROk s' ->
+  exists s1, run_from k s tr1 = ROk s1.
 Proof.
   induction tr1 as [|[e os] r IH]; intros tr2 k s s' H; simpl in *.
   - exists s. reflexivity.
@@ -440,7 +442,7 @@ Proof.
 Qed.
 
 Theorem run_last_obs tr e os s :
-  run (tr ++ [(e, os)]) = Ok s -> Reachable V s /\ check_obs s os = true.
+  run (tr ++ [(e, os)]) = ROk s -> Reachable V s /\ check_obs s os = true.
 Proof.
   intro H. destruct (run_from_sound (tr ++ [(e, os)]) 0 init s (R_init V) H) as [Hr [_ Hl]].
   split; [exact Hr|].
